@@ -159,6 +159,29 @@ def signSitesStep (d : DState) (l : Line) : DState × List Verdict :=
       else some (.mismatch s!"signsites/{i.file}:{i.fn}" (toString (siteCount i.file i.fn)) "0")
     (d, extra ++ missing)
 
+
+/-- verdicts for one step of a session: `before` is what the STORE held before the request (from the
+implementation's own commits), `model` what the session model predicts for the step -/
+def stepVerdicts (name : String) (site : SignSite) (before : Rev) (i : SiteIn) (res : String) (sig : Nat)
+    (o : Option Rev) (amt : Nat) (model : Res (Rev × Nat)) (hostSetsFile : Bool) : List Verdict :=
+  let res := if res == "none" then "reject" else res
+  let canon (r : Rev) (cr : Nat) : String :=
+    (if hostSetsFile then showRev { r with filesize := 0, root := 0 } else showRev r) ++ "/" ++ toString cr
+  let i : SiteIn := { i with cur := before }
+  let signed : Option Rev := match o with
+    | some o => some o
+    | none =>
+      if sig == 1 && i.vv.length == before.valid.length && i.mv.length == before.missed.length then
+        some { before with revNo := i.no, valid := replaceVals before.valid i.vv, missed := replaceVals before.missed i.mv }
+      else none
+  let implRet := match signed with | some o => canon o amt | none => ""
+  let cl : List (String × Bool) := match signed with
+    | some o => siteClauses site i o amt ++
+        [("revision_number_increases", decide (o.revNo > before.revNo)),
+         ("signature_over_expected_revision", sig != 2), ("renter_signed_this_revision", i.sigOK)]
+    | none => [("signed_revision_known", false)]
+  judge name res implRet (model.bind fun (r, cr) => .ok (canon r cr)) cl []
+
 def step (d : DState) (l : Line) : DState × List Verdict :=
   let fx := d.fx
   if l.op == "signsites" then signSitesStep d l else
@@ -297,6 +320,41 @@ def step (d : DState) (l : Line) : DState × List Verdict :=
           | none => [("signed_revision_known", false)]
         fin name implRet model cl []
       | _, _, _, _, _, _ => bad
+    | "q2" =>
+      match getRev l.args "c", getRev l.args "p1", getRev l.args "p2", getNat l.args "relock", getNat l.args "price1",
+            getNat l.args "price2", (getStr l.args "k1").bind siteOf, (getStr l.args "k2").bind siteOf with
+      | some c, some p1, some p2, some relock, some pr1, some pr2, some (s1, n1), some (s2, n2) =>
+        let mk (p : Rev) (price : Nat) (k : String) : SiteIn :=
+          { cur := c, no := p.revNo, vv := vals p.valid, mv := vals p.missed, price := price, burn := 0,
+            sigOK := getNat l.obs ("sigok" ++ k) == some 1 }
+        let i1 := mk p1 pr1 "1"
+        let i2 := mk p2 pr2 "2"
+        let (m1, m2) := session2 fx codeFacts c s1 s2 i1 i2 (relock == 1)
+        let o1 := getRev l.obs "o1"
+        -- what the store holds before the second request: the first commit, if there was one
+        let before2 := o1.getD c
+        let v1 := stepVerdicts n1 s1 c i1 ((getStr l.obs "r1").getD "none") ((getNat l.obs "sig1").getD 0) o1 0 m1 (s1 == .rhp2Write)
+        let v2 := stepVerdicts n2 s2 before2 i2 ((getStr l.obs "r2").getD "none") ((getNat l.obs "sig2").getD 0)
+                    (getRev l.obs "o2") 0 m2 (s2 == .rhp2Write)
+        (count d res 30, v1 ++ v2)
+      | _, _, _, _, _, _, _, _ => bad
+    | "q3" =>
+      match getRev l.args "c", getRev l.args "p1", getRev l.args "p2", getNat l.args "need", getNat l.args "burn" with
+      | some c, some p1, some p2, some need, some burn =>
+        let mk (p : Rev) (b : Nat) (k : String) : SiteIn :=
+          { cur := c, no := p.revNo, vv := vals p.valid, mv := vals p.missed, price := 0, burn := b,
+            sigOK := getNat l.obs ("sigok" ++ k) == some 1 }
+        let i1 := mk p1 0 "1"
+        let i2 := mk p2 burn "2"
+        let (m1, m2) := execByContract fx true c i1 i2 need
+        let o1 := getRev l.obs "o1"
+        let before2 := o1.getD c
+        let v1 := stepVerdicts "rhp3.processContractPayment" .rhp3Pay c i1 ((getStr l.obs "r1").getD "none")
+                    ((getNat l.obs "sig1").getD 0) o1 ((getNat l.obs "amt1").getD 0) m1 false
+        let v2 := stepVerdicts "rhp3.finalize" .rhp3Finalize before2 i2 ((getStr l.obs "r2").getD "none")
+                    ((getNat l.obs "sig2").getD 0) (getRev l.obs "o2") 0 m2 true
+        (count d res 30, v1 ++ v2)
+      | _, _, _, _, _ => bad
     | "rpcform2" =>
       match getRev l.args "f", getNat l.args "rk", getNat l.args "h", getNat l.args "rh", getSettings l.args with
       | some f, some rk, some h, some rh, some st =>
